@@ -700,12 +700,170 @@ def r19_4(ctx, counts: dict[str, int]) -> RuleResult:
     return res
 
 
+# --------------------------------------------------------------------- R19.5
+STATE_MUTATORS = {'append', 'extend', 'insert', 'pop', 'remove', 'clear', 'sort', 'reverse',
+                  'update', 'setdefault', 'add', 'discard', 'popitem', 'appendleft'}
+
+
+def r19_5(ctx, counts: dict[str, int], scope=None, min_writers: int = 6) -> RuleResult:
+    model: Model = ctx.model
+    res = RuleResult(
+        'R19.5', 'PROCESS-STATE-INVENTORY',
+        'State that outlives a call — a module-level name (rebound through `global`, or a '
+        'module-level container stored into / mutated), a class-level attribute written through '
+        '`cls.X` / `ClassName.X`, or a nonlocal of a nested function that its parent returns (a '
+        'decorator wrapper) — is written only by the functions of the reviewed inventory in the '
+        'allow table (parser construction at import, the Unicode data installer and its lazy '
+        'subsets, the two lazily loaded validation schemas). Any other writer is a new '
+        'process-wide cache: results then depend on what was evaluated before, possibly under '
+        'another configuration (parser, XSD or Unicode version) or by another thread.')
+    n = 0
+    shared_cache: dict[int, set[str]] = {}
+    for f in sorted(model.all_functions(), key=lambda q: q.key):
+        if scope is not None and not scope(f):
+            continue
+        mod = f.module
+        locals_ = set(f.params())
+        for nd in walk_local(f.node):
+            if isinstance(nd, (ast.Assign, ast.AnnAssign, ast.AugAssign, ast.For, ast.With)):
+                tg = nd.targets if isinstance(nd, ast.Assign) else \
+                    [it.optional_vars for it in nd.items if it.optional_vars is not None] \
+                    if isinstance(nd, ast.With) else [nd.target]
+                for t in tg:
+                    for x in ast.walk(t):
+                        if isinstance(x, ast.Name) and isinstance(x.ctx, ast.Store):
+                            locals_.add(x.id)
+            if isinstance(nd, (ast.comprehension,)):
+                for x in ast.walk(nd.target):
+                    if isinstance(x, ast.Name):
+                        locals_.add(x.id)
+        globs = {g for nd in walk_local(f.node) if isinstance(nd, ast.Global) for g in nd.names}
+        nonl = {g for nd in walk_local(f.node) if isinstance(nd, ast.Nonlocal) for g in nd.names}
+        escaping = f.parent is not None and any(
+            isinstance(r, ast.Return) and isinstance(r.value, ast.Name) and r.value.id == f.name
+            for r in walk_local(f.parent.node))
+        locals_ -= globs
+
+        def is_shared_base(e: ast.expr) -> str:
+            base = e
+            first_attr = ''
+            while isinstance(base, (ast.Subscript, ast.Attribute)):
+                if isinstance(base, ast.Attribute):
+                    first_attr = base.attr
+                base = base.value
+            if not isinstance(base, ast.Name):
+                return ''
+            nm = base.id
+            if nm == 'cls' and isinstance(e, (ast.Attribute, ast.Subscript)):
+                return f'class attribute cls.{first_attr}'
+            if nm in locals_ or nm in ('self',):
+                return ''
+            if nm in globs:
+                return 'module global ' + nm
+            if nm in mod.assigns and e is not base:
+                return 'module-level ' + nm
+            kind, _ = model.resolve(mod, nm)
+            if kind == 'class' and isinstance(e, (ast.Attribute, ast.Subscript)) and e is not base:
+                return f'class attribute {nm}.{first_attr}'
+            if kind == 'const' and e is not base:
+                return 'module-level ' + nm
+            return ''
+        writes: list[tuple[ast.AST, str]] = []
+        for nd in walk_local(f.node):
+            tgts: list[ast.expr] = []
+            if isinstance(nd, (ast.Assign, ast.Delete)):
+                for t in nd.targets:
+                    tgts.extend(t.elts if isinstance(t, ast.Tuple) else [t])
+            elif isinstance(nd, (ast.AugAssign, ast.AnnAssign)):
+                if not (isinstance(nd, ast.AnnAssign) and nd.value is None):
+                    tgts = [nd.target]
+            for t in tgts:
+                if isinstance(t, ast.Name):
+                    if t.id in globs:
+                        writes.append((nd, 'module global ' + t.id))
+                    elif t.id in nonl and escaping:
+                        writes.append((nd, f'closure state {t.id} of the returned wrapper'))
+                else:
+                    w = is_shared_base(t)
+                    if w:
+                        writes.append((nd, w))
+            if isinstance(nd, ast.Call) and isinstance(nd.func, ast.Attribute) and \
+                    nd.func.attr in STATE_MUTATORS:
+                w = is_shared_base(nd.func.value) if isinstance(
+                    nd.func.value, (ast.Attribute, ast.Subscript)) else ''
+                if not w and isinstance(nd.func.value, ast.Name):
+                    nm = nd.func.value.id
+                    if nm not in locals_ and nm != 'self' and (
+                            nm in globs or nm in mod.assigns or
+                            model.resolve(mod, nm)[0] == 'const'):
+                        w = 'module-level ' + nm
+                    elif nm in nonl and escaping:
+                        w = f'closure state {nm} of the returned wrapper'
+                if w:
+                    writes.append((nd, w))
+        # class-level mutable containers reached through self.X (shared by all instances
+        # unless some method rebinds self.X)
+        if f.cls is not None:
+            if id(f.cls) not in shared_cache:
+                rebound_attrs = {t.attr for c_ in [f.cls] + f.cls.mro()
+                                 for m_ in c_.methods.values()
+                                 for st_ in walk_local(m_.node)
+                                 if isinstance(st_, (ast.Assign, ast.AnnAssign))
+                                 for t in (st_.targets if isinstance(st_, ast.Assign)
+                                           else [st_.target])
+                                 if isinstance(t, ast.Attribute) and dotted(t.value) == 'self'}
+                sh = set()
+                for c_ in [f.cls] + f.cls.mro():
+                    for k_, v_ in c_.attrs.items():
+                        if k_ in rebound_attrs:
+                            continue
+                        if isinstance(v_, (ast.Dict, ast.List, ast.Set)) or (
+                                isinstance(v_, ast.Call) and dotted(v_.func) in (
+                                    'dict', 'list', 'set', 'defaultdict', 'OrderedDict', 'deque')):
+                            sh.add(k_)
+                shared_cache[id(f.cls)] = sh
+            shared_attrs = shared_cache[id(f.cls)]
+            for nd in walk_local(f.node):
+                tg_: list[ast.expr] = []
+                if isinstance(nd, (ast.Assign, ast.Delete)):
+                    for t in nd.targets:
+                        tg_.extend(t.elts if isinstance(t, ast.Tuple) else [t])
+                elif isinstance(nd, ast.AugAssign):
+                    tg_ = [nd.target]
+                for t in tg_:
+                    if isinstance(t, ast.Subscript) and isinstance(t.value, ast.Attribute) and \
+                            dotted(t.value.value) == 'self' and t.value.attr in shared_attrs:
+                        writes.append((nd, f'class-level container {f.cls.name}.{t.value.attr}'))
+                if isinstance(nd, ast.Call) and isinstance(nd.func, ast.Attribute) and \
+                        nd.func.attr in STATE_MUTATORS and isinstance(nd.func.value, ast.Attribute) \
+                        and dotted(nd.func.value.value) == 'self' and nd.func.value.attr in shared_attrs:
+                    writes.append((nd, f'class-level container {f.cls.name}.{nd.func.value.attr}'))
+        if not writes:
+            continue
+        n += 1
+        by_state: dict[str, ast.AST] = {}
+        for nd, w in writes:
+            by_state.setdefault(w, nd)
+        res.instances.append(f'{f.key}: writes {sorted(by_state)[:4]}')
+        for w, nd in sorted(by_state.items()):
+            res.fail(finding('R19.5', f, nd, f'writes {w}',
+                             f'{f.name} writes state that outlives the call ({w}): '
+                             f'`{stmt_text(nd)[:60]}`. It is not in the reviewed inventory of '
+                             f'process-wide state: a cache of this kind makes results depend on '
+                             f'earlier evaluations, other configurations or other threads'))
+    counts['process_state_writers'] = n
+    if n < min_writers:
+        raise AnalysisError(f'only {n} writers of process-wide state located (inventory shrank)')
+    return res
+
+
 def run(ctx) -> dict:
     counts: dict[str, int] = {}
     results = [r19_1(ctx, counts), r19_2(ctx, counts), r19_3(ctx, counts), r19_4(ctx, counts)]
     # the installed Unicode tables and the lazy escape subsets are process-wide state too
     from .c13_unicode import r13_4
     results.append(r13_4(ctx, counts))
+    results.append(r19_5(ctx, counts))
     return {
         'results': results,
         'counts': counts,
